@@ -63,6 +63,9 @@ P = {
  "C19": (True, "model_checking", "TLA+ models of the dedup fingerprint preimage framing and eligibility rule (Fingerprint.tla over the Conditions machine in mempool mode) and of the fast-forward guard table and solution rewrite (FastForward.tla), model-checked by TLC (framing injective on accepted lists, eligibility rule, guard table); TLC-generated condition-list pairs and corruption matrices replayed on real singleton spends and trace-validated (Trace_Mempool)",
          "TLC checks on pair menus that equal fingerprints of two accepted lists imply identical parsed conditions and that DEDUP is flagged only without AGG_SIG / message conditions and with outputs >= input; every pair and every row of the fast-forward corruption matrix (wrong coin, lineage, amounts, non-singleton puzzles) runs through run_spendbundle fingerprints / flags and fast_forward_singleton on real singleton spends; TLC validates refusal / acceptance, that the rewritten solution differs only in the three lineage fields, re-runs against the new coin and equal created coins",
          "clvmr runs the singleton puzzle (oracle); one recorded known finding C19_TAIL (trailing solution elements dropped by the rewrite)", "3 C19"),
+ "C20": (True, "model_checking", "TLA+ model of the Python JSON-dict form of the Streamable types (JsonDict.tla on the Streamable.tla type terms: ToJ / FromJ, per-class JSON views with upper-cased keys, transparent tuple structs and the hand-written block / proof-of-space layouts, 14 single-position corruption classes) model-checked by TLC; the model is instantiated with the schema and views extracted from the current sources, TLC enumerates every applicable (path, corruption) of canonical values of all modelled classes as replay cases, and TLC re-derives the JSON form and every verdict of each recorded to_json_dict / from_json_dict event of a pyo3-embedded harness (Trace_Json)",
+         "TLC checks RoundTrip (FromJ o ToJ = id), CorruptRejected (every applicable hex-length / hex-digit / 0x / integer-range / enum / element-count / missing-key / null corruption is rejected), LocalIsGlobal and IntExact (integers accepted exactly in range, widths 1..16 bytes) over all combinator terms of depth <= 1 (quick) / 3 (thorough) and model structs; every TLC case plus schema-generated boundary and arbitrary values of all registered classes go through to_json_dict and from_json_dict inside an embedded interpreter; TLC parses the encoding with the wire grammar, requires the logged JSON to equal ToJ, the way back to give an equal value with identical bytes and hash, and every logged corruption (spec-recomputed) to be rejected",
+         "JSON views extracted from the sources by checks/c20.py + tools/schema.py; point validity / CLVM length are oracle facts from blst / clvmr; Python objects outside the JSON model (bool for int, str / dict for list, int list for BLS elements) and missing keys of optional fields are not judged; SecretKey / GTElement round-trip clauses only; value equality observed through PartialEq + re-encoding + hash", "3 C20"),
 }
 ORDER = ["C%02d" % i for i in range(1, 21)]
 PENDING_REASON = "check not built yet in this round (construction order DESIGN section 8); no claim is made"
